@@ -46,7 +46,7 @@ type DCfg struct {
 	Full []int `json:"full,omitempty"`
 }
 
-// DOp: K = disc | req | rel | decl | age | tick.
+// DOp: K = disc | req | rel | decl | age | tick | flush.
 // C: client index (MAC 02:00:00:00:00:<C+1>).  Cid: circuit number in option 82 (0 = none).
 // IP (req, decl): 0 = the address last offered/acked to C (absent when none), -1 = option absent,
 // n > 0 = host n of the pool network.
@@ -58,6 +58,7 @@ type DOp struct {
 	Cid   int    `json:"cid,omitempty"`
 	Relay bool   `json:"relay,omitempty"`
 	Rid   bool   `json:"rid,omitempty"`
+	M     int    `json:"m,omitempty"` // flush: kernel map (numbering of DCfg.Full) emptied behind the managers' back
 	IP    int    `json:"ip,omitempty"`
 	D     int    `json:"d,omitempty"` // age: seconds
 }
@@ -488,7 +489,7 @@ func setCoq(m map[uint64]bool) string {
 
 const poison = 4000000000 // an inconsistency between a manager's table and its kernel map shows as this member
 
-// snapshot returns the Coq arguments "alloc avail unavail leases bycid nat qos_egress qos_ingress qos_tracked cmac chash csub cvlan".
+// snapshot returns the Coq arguments "alloc avail unavail leases bycid nat(manager) nat(kernel) qos_egress qos_ingress qos_tracked cmac chash csub cvlan".
 func (w *dworld) snapshot() (dhcp.VerifC02Snapshot, string) {
 	sn := w.srv.VerifC02Snapshot(1)
 	now := time.Now()
@@ -516,7 +517,7 @@ func (w *dworld) snapshot() (dhcp.VerifC02Snapshot, string) {
 		hw, _ := net.ParseMAC(l.MAC)
 		bc[cidNumBytes(kb)] = vh.Pair(vh.N(macNum(hw)), vh.N(ipNum(l.IP)))
 	}
-	nt, qs, qi, qt := map[uint64]bool{}, map[uint64]bool{}, map[uint64]bool{}, map[uint64]bool{}
+	nt, nk, qs, qi, qt := map[uint64]bool{}, map[uint64]bool{}, map[uint64]bool{}, map[uint64]bool{}, map[uint64]bool{}
 	cm, ch, cs, cv := map[uint64]string{}, map[uint64]string{}, map[uint64]string{}, map[uint64]string{}
 	if w.natm != nil {
 		for n := 0; n < w.nhosts; n++ {
@@ -537,13 +538,8 @@ func (w *dworld) snapshot() (dhcp.VerifC02Snapshot, string) {
 		}
 	}
 	if w.e.kernel {
-		kv := w.dump("subscriber_nat")
-		kn := map[uint64]bool{}
-		for _, e := range kv {
-			kn[u32le(e.Key)] = true
-		}
-		if w.natm != nil && !sameSet(kn, nt) {
-			nt[poison+1] = true
+		for _, e := range w.dump("subscriber_nat") {
+			nk[u32le(e.Key)] = true
 		}
 		for _, e := range w.dump("qos_egress") {
 			qs[u32le(e.Key)] = true
@@ -583,8 +579,8 @@ func (w *dworld) snapshot() (dhcp.VerifC02Snapshot, string) {
 			cs[k] = vh.N(u32le(e.Value[4:8]))
 		}
 	}
-	return sn, fmt.Sprintf("%s %s %s %s %s %s %s %s %s %s %s %s %s", pairsCoq(al), vh.List(av), setCoq(un), pairsCoq(le), pairsCoq(bc),
-		setCoq(nt), setCoq(qs), setCoq(qi), setCoq(qt), pairsCoq(cm), pairsCoq(ch), pairsCoq(cs), pairsCoq(cv))
+	return sn, fmt.Sprintf("%s %s %s %s %s %s %s %s %s %s %s %s %s %s", pairsCoq(al), vh.List(av), setCoq(un), pairsCoq(le), pairsCoq(bc),
+		setCoq(nt), setCoq(nk), setCoq(qs), setCoq(qi), setCoq(qt), pairsCoq(cm), pairsCoq(ch), pairsCoq(cs), pairsCoq(cv))
 }
 
 func sameSet(a, b map[uint64]bool) bool {
@@ -677,6 +673,18 @@ func (w *dworld) apply(o DOp, tags map[string]bool) string {
 		w.srv.VerifC02AgeLeases(time.Duration(o.D) * time.Second)
 	case "tick":
 		w.srv.VerifC02CleanupTick()
+	case "flush":
+		n, ok := faultMaps[o.M]
+		if !ok {
+			panic("bad flush map")
+		}
+		op = fmt.Sprintf("Flush %d", o.M)
+		if w.e.kernel {
+			for _, kv := range w.dump(n) {
+				must(w.mp(n).Delete(kv.Key))
+			}
+		}
+		tags["flush:"+n] = true
 	default:
 		panic("bad op " + o.K)
 	}
@@ -892,6 +900,63 @@ func enumFaults() []DCase {
 	return out
 }
 
+// enumWindow: the owner comes back around the expiry of its lease, BEFORE the reaper's next pass: time step
+// just short of / just past the lease time x {REQUEST, DISCOVER, DISCOVER+REQUEST, nothing} x reaper tick x
+// ending path x final ticks; then a second client. (The exact instant of expiry is not generated: real time
+// passes between the operations.)
+func enumWindow() []DCase {
+	var out []DCase
+	cfg := DCfg{Radius: true, Qos: true, Nat: true, NatBlocks: 4, Bits: 28, LeaseSec: 3600}
+	for cid := 0; cid <= 1; cid++ {
+		for _, d := range []int{cfg.LeaseSec - 40, cfg.LeaseSec + 40} {
+			for _, act := range []string{"req", "disc", "disc+req", "req-noopt", ""} {
+				for _, e1 := range []string{"rel", "expire", "decl-own", "none"} {
+					base := DOp{Cid: cid, Relay: cid == 1}
+					mk := func(k string) DOp { o := base; o.K = k; return o }
+					ops := []DOp{mk("disc"), mk("req"), {K: "age", D: d}}
+					switch act {
+					case "req":
+						ops = append(ops, mk("req"))
+					case "disc":
+						ops = append(ops, mk("disc"))
+					case "disc+req":
+						ops = append(ops, mk("disc"), mk("req"))
+					case "req-noopt":
+						ops = append(ops, DOp{K: "req"})
+					}
+					ops = append(ops, DOp{K: "tick"})
+					ops = append(ops, endOps(e1, 0, cfg.LeaseSec)...)
+					ops = append(ops, DOp{K: "age", D: cfg.LeaseSec + 600}, DOp{K: "tick"}, DOp{K: "tick"},
+						DOp{K: "disc", C: 1}, DOp{K: "req", C: 1}, DOp{K: "rel", C: 1})
+					out = append(out, DCase{Cfg: cfg, Ops: ops})
+				}
+			}
+		}
+	}
+	return out
+}
+
+// enumFlush: a kernel map loses its entries behind the managers' back (datapath reload, operator flush)
+// while the session is up; then the session ends by every path, ends again, and a second client comes.
+func enumFlush() []DCase {
+	var out []DCase
+	cfg := DCfg{Radius: true, Qos: true, Nat: true, NatBlocks: 2, Bits: 28, LeaseSec: 3600}
+	for m := 1; m <= 6; m++ {
+		for renew := 0; renew <= 1; renew++ {
+			for _, e1 := range dEnds {
+				ops := []DOp{{K: "disc", Cid: 1, Relay: true}, {K: "req", Cid: 1, Relay: true}, {K: "flush", M: m}}
+				if renew == 1 {
+					ops = append(ops, DOp{K: "req", Cid: 1, Relay: true})
+				}
+				ops = append(ops, endOps(e1, 0, cfg.LeaseSec)...)
+				ops = append(ops, DOp{K: "rel", C: 0}, DOp{K: "disc", C: 1}, DOp{K: "req", C: 1}, DOp{K: "disc", C: 2}, DOp{K: "req", C: 2}, DOp{K: "rel", C: 1}, DOp{K: "rel", C: 2})
+				out = append(out, DCase{Cfg: cfg, Ops: ops})
+			}
+		}
+	}
+	return out
+}
+
 func randDCfg(r *vh.Rng) DCfg {
 	c := DCfg{Radius: r.Chance(4, 5), Qos: r.Chance(4, 5), Nat: r.Chance(4, 5), NatBlocks: 1 + r.Intn(4), Bits: 28 + r.Intn(2), LeaseSec: []int{600, 3600, 86400}[r.Intn(3)]}
 	if r.Chance(1, 4) { // fault injection: one or two kernel maps are full
@@ -976,7 +1041,15 @@ func genRandD(r *vh.Rng, maxOps int, guarded bool) DCase {
 			if r.Chance(1, 3) {
 				d = c.Cfg.LeaseSec/3 + 17
 			}
-			c.Ops = append(c.Ops, DOp{K: "age", D: d}, DOp{K: "tick"})
+			c.Ops = append(c.Ops, DOp{K: "age", D: d})
+			if r.Chance(1, 2) { // somebody comes back before the reaper's pass (after expiry: the window)
+				k := "req"
+				if r.Chance(1, 3) {
+					k = "disc"
+				}
+				c.Ops = append(c.Ops, DOp{K: k, C: cl, Cid: cid, Relay: relay, Rid: rid})
+			}
+			c.Ops = append(c.Ops, DOp{K: "tick"})
 			if d > c.Cfg.LeaseSec {
 				for k := range est {
 					if est[k] == 2 {
@@ -985,7 +1058,11 @@ func genRandD(r *vh.Rng, maxOps int, guarded bool) DCase {
 				}
 			}
 		default:
-			c.Ops = append(c.Ops, DOp{K: "tick"})
+			if r.Chance(1, 2) {
+				c.Ops = append(c.Ops, DOp{K: "flush", M: 1 + r.Intn(6)})
+			} else {
+				c.Ops = append(c.Ops, DOp{K: "tick"})
+			}
 		}
 	}
 	return c
